@@ -156,6 +156,51 @@ def fromString (s0 : Bytes) : FeatureID :=
     | none => invalidID
   | _, _ => invalidID
 
+/-! ### what the JSON and protobuf libraries do to a Go string
+
+Both formats define a string as Unicode.  `encoding/json` writes every byte that does not start a valid
+UTF-8 sequence (`utf8.DecodeRuneInString` = `RuneError`, width 1: stray continuation bytes, overlong forms,
+surrogates, truncated sequences, 0xF5–0xFF) as U+FFFD, silently; `proto.Marshal` refuses the message. -/
+
+def isCont (c : Nat) : Bool := 128 ≤ c && c ≤ 191
+
+/-- width of the valid UTF-8 sequence at the head of the bytes, `none` when there is none -/
+def utf8Width : Bytes → Option Nat
+  | [] => none
+  | c0 :: rest =>
+    if c0 < 128 then some 1
+    else if 194 ≤ c0 && c0 ≤ 223 then
+      match rest with
+      | c1 :: _ => if isCont c1 then some 2 else none
+      | _ => none
+    else if 224 ≤ c0 && c0 ≤ 239 then
+      match rest with
+      | c1 :: c2 :: _ =>
+        let r := (c0 - 224) * 4096 + (c1 - 128) * 64 + (c2 - 128)
+        if isCont c1 && isCont c2 && 2048 ≤ r && !(55296 ≤ r && r ≤ 57343) then some 3 else none
+      | _ => none
+    else if 240 ≤ c0 && c0 ≤ 244 then
+      match rest with
+      | c1 :: c2 :: c3 :: _ =>
+        let r := (c0 - 240) * 262144 + (c1 - 128) * 4096 + (c2 - 128) * 64 + (c3 - 128)
+        if isCont c1 && isCont c2 && isCont c3 && 65536 ≤ r && r ≤ 1114111 then some 4 else none
+      | _ => none
+    else none
+
+/-- the string a JSON document carries for a Go string: invalid bytes become U+FFFD (`EF BF BD`) -/
+def jsonCarryFuel : Nat → Bytes → Bytes
+  | 0, _ => []
+  | _ + 1, [] => []
+  | fuel + 1, c :: cs =>
+    match utf8Width (c :: cs) with
+    | some w => (c :: cs).take w ++ jsonCarryFuel fuel ((c :: cs).drop w)
+    | none => [239, 191, 189] ++ jsonCarryFuel fuel cs
+
+def jsonCarry (s : Bytes) : Bytes := jsonCarryFuel s.length s
+
+/-- valid UTF-8: what JSON carries unchanged and protobuf accepts in a `string` field -/
+def validUTF8 (s : Bytes) : Bool := jsonCarry s == s
+
 /-- the string handed to `json.Marshal` by `MarshalJSON` -/
 def jsonString (f : FeatureID) : Bytes := idString f
 /-- `UnmarshalJSON` once the library has produced the string -/
